@@ -35,6 +35,10 @@ REQUIRED_CLASSES = ["nontrivial", "unit:none", "unit:px", "unit:in", "unit:mm", 
 QUICK_SHARDS = 4
 
 plot_utils = sut.load("plot_utils")
+OPTION_PROBES = [(plot_utils.parseLengthWithUnits, ["string_to_parse"], ["50%"]),
+                 (plot_utils.unitsToUserUnits, ["input_string", "percent_ref"], ["50%", 800]),
+                 (plot_utils.userUnitToUnits, ["distance_uu", "unit_string"], [96.0, "in"])]
+
 
 # SVG / CSS absolute units at 96 px per inch, as exact rationals (px per unit)
 FACTOR = {
